@@ -6,6 +6,7 @@ import MlModel.Lemmas.SchedIT
 import MlModel.Lemmas.SchedITInv
 import MlModel.Properties.C09
 import MlModel.Lemmas.SchedRun
+import MlModel.Lemmas.SchedLive
 /-!
 # C06 — Distributed runs survive worker timeouts and deaths: no lost or doubled work
 
@@ -280,6 +281,20 @@ theorem C06_aggregate {X S R : Type} (m : Mergeable X S R) (Eqv : S → S → Pr
     exact hc _ (fun i hi => List.mem_range.mp hi)
   rw [e3, C09.C09_partition d hwf xs hlen c.n hk] at p1
   exact hl.result_congr (hl.trans h1 (hperm _ _ p1))
+
+
+/-- **No deadlock** ("as long as one worker stays usable").  At every point of every run at which
+the iteration has not ended and some worker is alive - or dead but able to rejoin - a progress
+step (submission, coroutine step, examination of a task, loop exit, rejoin) is enabled: the
+bookkeeping never waits for something that cannot happen.  (A call that will never be answered
+belongs to a worker the master sees dead, so its task is re-queued; an answered call lets its
+coroutine advance; with nothing running a usable worker takes the next task.)  Conversely a pool
+whose workers are all dead for good can only spin - the real code then hangs, outside the
+hypothesis of C06; `as_completed` raises TimeoutError there. -/
+theorem C06_no_deadlock (h : IReach c (IT.init nw c.n) s) (ho : s.outcome = none)
+    (hw : ∃ (w : Nat) (x : Worker), s.ws[w]? = some x ∧ (x.alive = true ∨ x.canRejoin = true)) :
+    ∃ l s', l.progress = true ∧ itStep c s l = some s' :=
+  it_progress (liveInv_reach h) ho hw
 
 end Iterate
 
